@@ -39,7 +39,7 @@ func init() {
 			"unprocessed bytes are accounted from hook events: admitted at `admit`, processed at `handled`",
 			"netsim capacity (1 MiB) stands in for the TCP window, so a blocked reader slows the sender",
 		},
-		QuickTimeout: 900,
+		QuickTimeout: 1800,
 		Run:          run,
 	})
 }
